@@ -307,10 +307,27 @@ func (s *Sched) WaitUntil(site string, at time.Time) {
 	s.park(t, site, nil, modeNone, at)
 }
 
+// drainLock acquires a lock after the scheduler has been switched off (tear-down): it spins on
+// TryLock and, if the lock never becomes free (it was leaked, or its holder was terminated),
+// ends the goroutine instead of blocking on a real mutex for ever.
+func drainLock(try func() bool) {
+	for i := 0; i < 200000; i++ {
+		if try() {
+			return
+		}
+		runtime.Gosched()
+	}
+	runtime.Goexit()
+}
+
 func Lock(m Locker, site string) {
 	s := active.Load()
-	if s == nil || s.draining.Load() {
+	if s == nil {
 		m.Lock()
+		return
+	}
+	if s.draining.Load() {
+		drainLock(m.TryLock)
 		return
 	}
 	t := s.cur()
@@ -322,7 +339,7 @@ func Lock(m Locker, site string) {
 	for {
 		s.park(t, site, m, modeW, time.Time{})
 		if s.draining.Load() {
-			m.Lock()
+			drainLock(m.TryLock)
 			return
 		}
 		if m.TryLock() {
@@ -334,8 +351,12 @@ func Lock(m Locker, site string) {
 
 func RLock(m RLocker, site string) {
 	s := active.Load()
-	if s == nil || s.draining.Load() {
+	if s == nil {
 		m.RLock()
+		return
+	}
+	if s.draining.Load() {
+		drainLock(m.TryRLock)
 		return
 	}
 	t := s.cur()
@@ -347,7 +368,7 @@ func RLock(m RLocker, site string) {
 	for {
 		s.park(t, site, m, modeR, time.Time{})
 		if s.draining.Load() {
-			m.RLock()
+			drainLock(m.TryRLock)
 			return
 		}
 		if m.TryRLock() {
@@ -1071,6 +1092,25 @@ func (s *Sched) KillAll(match func(name string) bool) {
 	}
 	s.mu.Unlock()
 	s.draining.Store(false)
+}
+
+// DrainGraceful ends the simulation for a world with request handlers: harness tasks, tasks
+// started by instrumented code and tasks waiting for a lock are terminated at their yield
+// point; handler tasks (srv:, origin:) run on in pass-through mode so that their own clean-up
+// (closing response bodies, connections) happens — their connections have been aborted, so
+// every I/O they attempt fails at once.
+func (s *Sched) DrainGraceful() {
+	s.mu.Lock()
+	waiting := map[string]bool{}
+	for _, t := range s.tasks {
+		if t.state == stParked && t.waitLock != nil {
+			waiting[t.Name] = true
+		}
+	}
+	s.mu.Unlock()
+	s.Drain(func(n string) bool {
+		return waiting[n] || !(strings.HasPrefix(n, "srv:") || strings.HasPrefix(n, "origin:"))
+	})
 }
 
 // DrainKillOnPark switches to pass-through mode like Drain(kill everything) and additionally
